@@ -100,6 +100,14 @@ def operand_spec(rng, bits: str, kinds=None):
     return [k, bits]
 
 
+_TRUTHY = [1, 2, -1, 'x', 0.5, True, (0,), '0', 7, 1.0]
+_FALSY = [0, '', None, 0.0, False, (), 0, '', 0, None]
+
+
+def truthy_items(bits: str):
+    return [(_TRUTHY if ch == '1' else _FALSY)[i % 10] for i, ch in enumerate(bits)]
+
+
 def build_operand(spec, receiver=None):
     k, bits = spec[0], spec[1] if len(spec) > 1 else ''
     if k == 'self':
@@ -119,6 +127,11 @@ def build_operand(spec, receiver=None):
         return tuple(c == '1' for c in bits)
     if k == 'gen':
         return (int(c) for c in bits)
+    if k == 'truthy':               # arbitrary objects: an iterable is promoted item by item through bool()
+        return truthy_items(bits)
+    if k == 'truthy-iter':          # ... and handed over as an iterator that can be consumed once only
+        items = truthy_items(bits)
+        return iter(items) if len(bits) % 2 else (x for x in items)
     if k == 'bitarray':
         return bitarray.bitarray(bits)
     if k == 'BytesIO':
